@@ -154,6 +154,76 @@ fn chain_case(n: usize, prio: &[i64], kind: &str, st: &mut Stats) {
     }
 }
 
+/// integer operators whose division panics on a zero divisor, like the primitive
+#[derive(Clone, Debug, PartialEq, Eq, PartialOrd, Ord)]
+struct PanickyIntOps;
+impl exmex::MakeOperators<i64> for PanickyIntOps {
+    fn make<'a>() -> Vec<exmex::Operator<'a, i64>> {
+        use exmex::{BinOp, Operator};
+        vec![
+            Operator::make_bin("-", BinOp { apply: |a, b| a.wrapping_sub(b), prio: 1, is_commutative: false }),
+            Operator::make_bin("+", BinOp { apply: |a, b| a.wrapping_add(b), prio: 1, is_commutative: false }),
+            Operator::make_bin(
+                "/",
+                BinOp {
+                    apply: |a, b| {
+                        if b == 0 {
+                            panic!("EXPECTED-PANIC division by zero in a user-defined operator")
+                        }
+                        a.wrapping_div(b)
+                    },
+                    prio: 2,
+                    is_commutative: false,
+                },
+            ),
+        ]
+    }
+}
+
+/// A reduction that does not complete - an operator panics half-way, the caller catches it -
+/// leaves nothing behind: the chains evaluated afterwards on the same thread (this one right
+/// here, and all the term-algebra chains that follow) get their operands as always.
+fn interrupted_reduction(n: usize, st: &mut Stats) {
+    let mut text = String::from("a-b/c-d");
+    for k in 0..n {
+        text.push_str(&format!("-e{k:03}"));
+    }
+    let nvars = 4 + n;
+    let mut good: Vec<i64> = vec![900, 8, 2, 1];
+    good.extend((0..n as i64).map(|k| k + 1));
+    let want = 900 - 8 / 2 - 1 - (1..=n as i64).sum::<i64>();
+    let mut bad = good.clone();
+    bad[2] = 0;
+    st.bump("interrupted_reductions");
+    let r = catch(|| -> Option<String> {
+        let d = exmex::DeepEx::<i64, PanickyIntOps>::parse(&text).ok()?;
+        let f = exmex::FlatEx::<i64, PanickyIntOps>::parse(&text).ok()?;
+        if d.var_names().len() != nvars {
+            return None;
+        }
+        for round in 0..2 {
+            if std::panic::catch_unwind(std::panic::AssertUnwindSafe(|| d.eval(&bad))).is_ok() || std::panic::catch_unwind(std::panic::AssertUnwindSafe(|| f.eval(&bad))).is_ok() {
+                return Some("the division by zero of the user-defined operator did not panic".into());
+            }
+            for (what, got) in [("DeepEx", std::panic::catch_unwind(std::panic::AssertUnwindSafe(|| d.eval(&good)))), ("FlatEx", std::panic::catch_unwind(std::panic::AssertUnwindSafe(|| f.eval(&good))))] {
+                match got {
+                    Ok(Ok(v)) if v == want => {}
+                    Ok(other) => return Some(format!("round {round}: after an evaluation that was interrupted by a panicking operator, {what} evaluates the chain of {nvars} operands to {other:?}, expected {want}")),
+                    Err(_) => return Some(format!("round {round}: after an evaluation that was interrupted by a panicking operator, evaluating the {what} chain of {nvars} operands panics")),
+                }
+            }
+        }
+        None
+    });
+    let p = match r {
+        Ok(p) => p,
+        Err(m) => Some(format!("panic: {m}")),
+    };
+    if let Some(p) = p {
+        st.violation(format!("interrupted-reduction|n={nvars}|{}", p.split(',').next().unwrap_or("")), nvars, json!({"kind": "interrupted-reduction", "text": text, "problem": p}));
+    }
+}
+
 /// The same chains with operands that are literals and variables in arbitrary textual order and
 /// with repetitions, evaluated by borrowing and by the consuming variants (which fill the
 /// operand array differently): the operand standing left and right of an operator must be the
@@ -213,9 +283,14 @@ fn chain_case_mixed(n: usize, prio: &[i64], kind: &str, st: &mut Stats) {
     st.bump("cases");
     st.bump(&format!("mixed_chains_{kind}"));
     st.bump(["mixed_chains_shuffled_distinct_variables", "mixed_chains_repeated_variables", "mixed_chains_repeated_variables_and_literals"][flavour]);
-    for path in ["flat", "flat_vec", "flat_iter", "flat_wo_vec", "deep"] {
+    for path in ["flat", "flat_vec", "flat_iter", "flat_wo_vec", "wo_eval_compile_eval", "deep"] {
         let r = catch(|| match path {
             "flat" => FX::parse(&text).and_then(|e| e.eval(&vals)),
+            "wo_eval_compile_eval" => FX::parse_wo_compile(&text).and_then(|mut e| {
+                let _ = e.eval(&vals);
+                e.compile();
+                e.eval(&vals)
+            }),
             "flat_vec" => FX::parse(&text).and_then(|e| e.eval_vec(vals.clone())),
             "flat_iter" => FX::parse(&text).and_then(|e| e.eval_iter(vals.clone().into_iter())),
             "flat_wo_vec" => FX::parse_wo_compile(&text).and_then(|e| e.eval_vec(vals.clone())),
@@ -387,6 +462,10 @@ pub fn run(ctx: &Ctx) -> i32 {
                     }
                     let (prio, name) = structured(kind, n - 1, rng);
                     st.class(("long", n, kind, rep));
+                    if kind == 0 && rep == 0 {
+                        // every so often a reduction on this thread is interrupted by a panicking operator
+                        interrupted_reduction(n.min(200), st);
+                    }
                     chain_case(n, &prio, name, st);
                     chain_case_mixed(n, &prio, name, st);
                 }
@@ -401,6 +480,7 @@ pub fn run(ctx: &Ctx) -> i32 {
     let mut report = Report::new(
         "chains v0 o0 v1 ... whose per-operator priorities realise a chosen application order, over the term algebra; judged (a) on the final term, (b) on the reduction trace recorded by hook H1 in eval_binary (every step: nearest live operand left/right, nothing consumed twice, order imposed by the priorities, only operand 0 live at the end), for FlatEx (folded/unfolded), DeepEx and flat->deep; the same orders over chains whose operands are shuffled, repeated variables and literals, evaluated from a slice and through eval_vec / eval_iter (which fill the operand array themselves); all permutations of up to 8 (quick) / 9 (thorough) operands; structured (ascending, descending, alternating, inside-out, outside-in, tie-heavy, all-equal) and random orders at lengths straddling 32/64/128/192/256 and 500/1000 operands; (c) the NumberTracker implementations (usize and [usize]) driven directly with random query/consume/ignore sequences against a Vec<bool> shadow. distinct_nontrivial = distinct (length, order) pairs.",
     )
+    .require("interrupted_reductions", 10)
     .require("exhaustive_permutations", 5000)
     .require("chains_gt64_operands", 50)
     .require("reduction_steps_observed", 10000)
